@@ -2,7 +2,7 @@
 from .common import *
 from . import shared
 from .shared import agg_field, same, msg_field
-from engine.analysis import storage_ops_deep, aggregates, must_pass, resolve_terms
+from engine.analysis import storage_ops_deep, aggregates, must_pass, resolve_terms, Rem
 
 CRATE = "staking"
 SECTIONS = ["NativeChainConfig", "ProtocolChainConfig", "ProtocolFeeConfig"]
@@ -198,7 +198,7 @@ def run(R, env):
     if ic is not None:
         for o in storage_ops_deep(prog, ic, env.depth):
             if o["kind"] == "w" and ns_of(prog, o["args"][0]) == "config":
-                v = o["args"][2]
+                v = shared.written_agg(prog, o)
                 for f, sec in SECF.items():
                     x = agg_field(v, f) if v[0] == "agg" else None
                     R.ob("C14.R3", "instantiate:%s-is-validated" % f, x is not None and from_validate(x, sec), "%s stored at instantiation = %s; expected the Ok value of %s::validate" % (f, fmt(x or ("none",))[:120], sec), loc=o["loc"], fn=ic.body.key)
@@ -219,7 +219,7 @@ def run(R, env):
         preds = {o: (lambda t, o=o: msg_field(t, "UpdateConfig", o)) for o in opts}
         nworld = 0
         for mask in range(32):
-            rem = set()
+            rem = Rem()
             okn = True
             for i, o in enumerate(opts):
                 r, n = world_edges(uc, preds[o], bool(mask >> i & 1))
@@ -229,7 +229,7 @@ def run(R, env):
             nworld += 1
             want = set((o,) for i, o in enumerate(opts) if mask >> i & 1)
             ws = shared.state_writes(prog, w, env, ns="config")
-            good = okn and len(ws) == 1
+            good = len(ws) == 1
             got = None
             for op, alts in ws:
                 for base, d in alts or []:
@@ -251,7 +251,12 @@ def run(R, env):
         R.worlds += nworld
         # fee config validated against the protocol section in force (supplied or stored)
         for op, alts in shared.state_writes(prog, uc, env, ns="config"):
-            vals = [s_ for s_ in subterms(op["args"][2]) if s_[0] == "upd" and s_[2] == ("protocol_fee_config",)]
+            from engine.analysis import forms
+            vals = []
+            for f_ in forms(prog, op.get("value") or op["args"][2], 2):
+                vals = [s_ for s_ in subterms(f_) if s_[0] == "upd" and s_[2] == ("protocol_fee_config",)]
+                if vals:
+                    break
             good = bool(vals)
             for s_ in vals:
                 c = shared.unwrap_payload(s_[3])
@@ -309,9 +314,8 @@ def run(R, env):
             R.ob("C14.R5", v + ":delta", good, "%s stores %s; expected loaded config with only native_chain_config.validators %s" % (v, fmt(op["args"][2])[:200], "pushed with the validated address" if kind == "add" else "with the found index removed"), loc=op["loc"], fn=hk)
         if kind == "add":
             def dupg(t):
-                if t[0] == "call" and t[1].endswith("Iterator::any") and vals(t[2][0]) and eq_closure(t[2][1]):
-                    return False
-                return None
+                m = membership(prog, t, vals, addr)
+                return None if m is None else (not m)
             found = []
             ok, off = guarded(h, Guard("not-present", boolean=dupg), prog, env.depth, found)
             R.ob("C14.R5", "AddValidator:duplicate-rejected", ok, "a validator already in the list can be added again: %s" % (off,), fn=hk, found=found)
